@@ -81,7 +81,7 @@ BuildEnum(s, p) ==
 Build(s, p) ==
   IF s.ref # "" THEN [D("ref", p) EXCEPT !.v = <<s.ref>>]
   ELSE LET sub == s.all \o s.any \o s.one IN
-    IF Len(sub) = 1 /\ sub[1].ref # "" THEN [D("ref", p) EXCEPT !.v = <<sub[1].ref>>]
+    IF Len(sub) = 1 /\ sub[1].ref # "" /\ ~s.props THEN [D("ref", p) EXCEPT !.v = <<sub[1].ref>>]      \* a wrapper with properties of its own is a model
     ELSE IF Scalar(s, "boolean") THEN D("bool", p)
     ELSE IF s.en # <<>> THEN BuildEnum(s, p)
     ELSE IF s.any # <<>> \/ s.one # <<>> \/ s.tl THEN BuildUnion(s, p)
